@@ -175,6 +175,8 @@ pub fn run_agenda(s: &mut Src, ctx: &mut Ctx) -> Verdict {
     let mut fired_groups: BTreeSet<usize> = BTreeSet::new();
     let mut next_tag = 1u64;
     let mut focus_epoch = 0u32;
+    // groups that lost the focus through set_focus since the last clear(), oldest first (what a focus stack may hold)
+    let mut left_by_set_focus: Vec<usize> = Vec::new();
     let mut nontrivial = false;
 
     for (step, op) in case.ops.iter().enumerate() {
@@ -211,6 +213,9 @@ pub fn run_agenda(s: &mut Src, ctx: &mut Ctx) -> Verdict {
                 }
                 if before != GROUPS[*g] {
                     focus_epoch += 1;
+                    if let Some(b) = group_idx(&before) {
+                        left_by_set_focus.push(b);
+                    }
                 }
             }
             Op::Reset => {
@@ -223,6 +228,7 @@ pub fn run_agenda(s: &mut Src, ctx: &mut Ctx) -> Verdict {
             }
             Op::Clear => {
                 ag.clear();
+                left_by_set_focus.clear();
                 pending.clear();
                 fired_rules.clear();
                 fired_groups.clear();
@@ -242,6 +248,23 @@ pub fn run_agenda(s: &mut Src, ctx: &mut Ctx) -> Verdict {
                 let excluded = |p: &Item| excl_noloop(p) || excl_actg(p);
                 if f1 != f0 {
                     ctx.label("focus-fallthrough");
+                    // the focus may only fall back to a group that was focused before and left through set_focus
+                    // since the last clear(): otherwise activations of a group nobody focused would fire
+                    match left_by_set_focus.iter().rposition(|g| *g == f1) {
+                        Some(k) => left_by_set_focus.truncate(k),
+                        None => {
+                            return Verdict::fail(
+                                "pop-focus-moved-to-never-focused-group",
+                                format!(
+                                    "step {}: get_next_activation moved the focus from {} to {}, a group that was not focused (and left through set_focus) since the last clear(); returned {:?}",
+                                    step,
+                                    GROUPS[f0],
+                                    GROUPS[f1],
+                                    got.as_ref().map(|a| a.rule_name.clone())
+                                ),
+                            )
+                        }
+                    }
                     if let Some(p) = pending.iter().find(|p| p.group == f0 && p.definite && !excluded(p)) {
                         return Verdict::fail(
                             "pop-left-focused-group",
